@@ -89,3 +89,17 @@ add(fam("arc", arc_shapes(2), Q2_KINDS), ARC_STEP, "thorough", 3,
 add(fam("arc", ["s1n0000", "s1n1000", "s1n0100", "s1n0010", "s1n0001"], ["symkeys_put", "symkeys_look"]),
     ARC_STEP + ["C17"], "thorough", 3,
     "AdaptiveCache<u8,u8>: size 1, sparse occupancies with symbolic pairwise-distinct keys (cross-check)", mem=10)
+
+# ---- TinyLFU / SampledLFU --------------------------------------------------------------------
+add(["h_tlfu::r2l3::"], ["C11", "C05", "C16"], "quick", 3,
+    "TinyLFU<u64, identity KeyHasher>, no_std sketch: arbitrary state with 4 counters per row, 512-bit doorkeeper, "
+    "1..=3 probes, samples and w full usize range, hashes full u64; one operation; single-key history of 4 operations",
+    mem=6)
+add(["h_tlfu::r4l7::"], ["C11", "C05", "C16"], "thorough", 3,
+    "TinyLFU: arbitrary state with 8 counters per row, 512-bit doorkeeper, 1..=7 probes; single-key history of 6 operations",
+    mem=10, tmul=2)
+add(["h_sampled::n0::", "h_sampled::n1::", "h_sampled::n2::step", "h_sampled::n2::fill_l1"], ["C20", "C05"], "quick", 4,
+    "SampledLFU<u64>: tracker with <= 2 tracked hashes (distinct, symbolic), costs |c| < 2^40, one operation with "
+    "symbolic hash/cost; fill_sample with input length <= 2 and every sample size up to len+2", mem=6)
+add(["h_sampled::n2::", "h_sampled::n3::"], ["C20", "C05"], "thorough", 4,
+    "SampledLFU<u64>: tracker with <= 3 tracked hashes; one operation; fill_sample input length <= 2", mem=8, tmul=2)
